@@ -1,27 +1,15 @@
-use fe2o3_amqp_types::performatives::*;
-use fe2o3_amqp_types::messaging::*;
-use fe2o3_amqp_types::definitions::*;
-use serde_amqp::{to_value, from_value, to_vec, serialized_size, Value};
+use fe2o3_amqp_types::messaging::{Body, Message, message::__private::{Deserializable, Serializable}};
+use serde_amqp::Value;
 fn main() {
-    let o = Open { container_id: "".into(), hostname: None, max_frame_size: MaxFrameSize(u32::MAX), channel_max: ChannelMax(65535), idle_time_out: None, outgoing_locales: None, incoming_locales: None, offered_capabilities: None, desired_capabilities: None, properties: None };
-    let v = to_value(&o).unwrap();
-    println!("{:?}", v);
-    println!("{:?}", from_value::<Open>(v));
-    let o = Open { container_id: "x".into(), hostname: Some("h".into()), max_frame_size: MaxFrameSize(100), channel_max: ChannelMax(5), idle_time_out: Some(1), outgoing_locales: None, incoming_locales: None, offered_capabilities: None, desired_capabilities: None, properties: Some(Default::default()) };
-    let v = to_value(&o).unwrap();
-    println!("{:?}", v);
-    println!("{:?}", from_value::<Open>(v));
-    let e = End { error: None };
-    let v = to_value(&e).unwrap();
-    println!("{:?} -> {:?}", v, from_value::<End>(v.clone()));
-    let d = Detach { handle: Handle(1), closed: true, error: None };
-    let v = to_value(&d).unwrap();
-    println!("{:?} -> {:?}", v, from_value::<Detach>(v.clone()));
-    let h = Header::default();
-    println!("hdr to_vec={:?} size={:?}", to_vec(&h), serialized_size(&h));
-    let h = Header{durable:true, ..Default::default()};
-    println!("hdr to_vec={:?} size={:?}", to_vec(&h), serialized_size(&h));
-    let a = Accepted{};
-    println!("acc to_vec={:?} size={:?}", to_vec(&a), serialized_size(&a));
-    let _ = Value::Null;
+    for hex in ["5375", "53755375", "53755377", "005375a00161", "5375a00161", "53775375", "5372", "53705375"] {
+        let b = vcheck::refcodec::unhex(hex);
+        let r: Result<Deserializable<Message<Body<Value>>>, _> = serde_amqp::from_slice(&b);
+        match r {
+            Ok(m) => {
+                let e = serde_amqp::to_vec(&Serializable(&m.0)).map(|v| vcheck::refcodec::hex(&v));
+                println!("{hex}: Ok body={:?} reenc={:?}", m.0.body, e);
+            }
+            Err(e) => println!("{hex}: Err {e}"),
+        }
+    }
 }
